@@ -69,6 +69,15 @@ def gen_cases(ctx):
     n_toy, n_sha = (240, 120) if quick else (10000, 20000)
     for _ in range(n_toy):
         cases.append(tg.rand_case(rng, "toy"))
+    # batch-storage layer: histories with a Commit after every Update, updatedNodes dumped
+    for _ in range(n_toy // 2):
+        c = tg.rand_case(rng, "toy")
+        for b in c["batches"]:
+            b["commit"] = True
+        cases.append(c)
+    for c in cases:
+        if c["hash"] == "toy" and all(b["commit"] for b in c["batches"]):
+            c["dump"] = True
     for _ in range(n_sha):
         cases.append(tg.rand_case(rng, "sha"))
     return cases
@@ -125,6 +134,8 @@ def model_compare_extracted(ctx, toy):
     if toy and (out[0] != toy[0][1]["toyvec0"] or out[1] != toy[0][1]["toyvec1"]):
         return "toy hash test vectors differ between Go and the OCaml driver", []
     bad = [i for i, l in enumerate(out[2:]) if l != "ok"]
+    ctx.cov["batch_storage_cases_compared"] = sum(1 for c, o in toy if c.get("dump") and o.get("upd"))
+    ctx.cov["driver_diffs"] = [out[2 + i][:300] for i in bad[:5]]
     return None, bad
 
 
@@ -139,7 +150,7 @@ def parse_all(out):
 
 
 def slim(c):
-    return {k: c[k] for k in ("hash", "atomic", "batches", "q") if k in c}
+    return {k: c[k] for k in ("hash", "atomic", "batches", "q", "dump") if k in c}
 
 
 def predicates(cases, obs):
